@@ -209,8 +209,10 @@ func (h kvHandler) handleKvScan(req *kvrpcpb.ScanRequest) *kvrpcpb.ScanResponse 
 		pairs = h.mvccStore.Scan(req.GetStartKey(), endKey, int(req.GetLimit()), req.GetVersion(), h.isolationLevel, req.Context.ResolvedLocks)
 	} else {
 		// TiKV use range [end_key, start_key) for reverse scan.
-		// Should use the req.EndKey to check in region.
-		if !h.checkKeyInRegion(req.GetEndKey()) {
+		// Should use the req.EndKey to check in region. The lower bound may coincide with the region's end key:
+		// the range is empty then (a reverse scan whose last batch ended exactly on its lower bound continues in
+		// the previous region), which TiKV answers with no pairs.
+		if !h.checkKeyInRegion(req.GetEndKey()) && !(len(h.endKey) > 0 && bytes.Equal(NewMvccKey(req.GetEndKey()), h.endKey)) {
 			panic("KvScan: startKey not in region")
 		}
 
